@@ -152,6 +152,9 @@ def task_sponge(task):
     if d.get('Error'):
         return dict(res, error='compile: ' + d['Error'])
     name = '%s %d bytes' % ('sha3-256' if sha3 else 'keccak-256', n)
+    prefix = task.get('prefix')        # history variant: the same circuit first hashes the prefix of the buffer (overlapping storage)
+    if prefix is not None:
+        name += ' after hashing its %d-byte prefix in the same circuit' % prefix
     try:
         t0 = time.time()
         L = Lifter(d, intbits=False, summary=SUMMARY)
@@ -168,6 +171,11 @@ def task_sponge(task):
         padded[-1] = T if z3.is_false(padded[-1]) else (F if z3.is_true(padded[-1]) else z3.Not(padded[-1]))   # final bit of pad10*1 (0x80)
         nblk = len(padded) // rate
         calls = [c for c in L.sumcalls if c[0]['gadget'] == 'keccak.KeccakF']
+        skip = 0
+        if prefix is not None:
+            skip = (8 * prefix + 8) // rate + 1
+            if len(calls) == skip + nblk:
+                calls = calls[skip:]
         if len(calls) != nblk:
             res['obls'].append({'name': name + ': number of permutation calls == number of padded blocks (%d)' % nblk, 'verdict': 'sat', 'expect': 'unsat', 'secs': 0.0,
                                 'cex': {'calls': len(calls), 'blocks': nblk}})
@@ -209,12 +217,14 @@ def task_sponge(task):
             # squeeze: harness equalities Out[i] == digest bit i
             les = [a for a in L.assertions if a['kind'] == 'le']
             dig = [state[i % 5][i // 5][k] for i in range(4) for k in range(64)]
-            outw = [L.zint(L.val[1 + nbits + i], used) for i in range(256)]
+            outw = [L.zint(L.val[1 + nbits + (256 if prefix is not None else 0) + i], used) for i in range(256)]
             asserts = [L.zassertion(a, used) for a in les]
             q = z3.Or(*[(outw[i] == 1) != dig[i] for i in range(256)] + [z3.Not(z3.Or(outw[i] == 0, outw[i] == 1)) for i in range(256)])
             r, secs, s = solve(L.closure(used) + asserts + [q], task.get('timeout', 120))
             res['obls'].append({'name': name + ': the 256 output bits are lanes (0,0),(1,0),(2,0),(3,0) of the final state, LSB first', 'verdict': r, 'expect': 'unsat', 'secs': secs,
                                 'cex': {'msg_bits': [1 if z3.is_true(s.model().eval(x, model_completion=True)) else 0 for x in msg]} if r == 'sat' else None})
+            if prefix is not None:
+                return res
             # completeness: with Out = those bits every constraint holds (no hidden assertion can fail)
             q2 = z3.And(*[(outw[i] == 1) == dig[i] for i in range(256)] + [z3.Or(outw[i] == 0, outw[i] == 1) for i in range(256)])
             allA = [L.zassertion(a, used) for a in L.assertions]
